@@ -25,7 +25,7 @@ import ast
 from contextlib import contextmanager
 
 from .. import termflow
-from ..astutil import parents, ancestors, u
+from ..astutil import ancestors, kwarg, parents, u
 from ..formula import extract, same, same_events, spec
 from ..model import AnalysisError
 from ..termflow import ADict, AList, ATuple, Poly, _const_of_key, _is_polykey, equivalent, key_atom, poly_from_key, show, vkey
@@ -1010,6 +1010,39 @@ def _fresh_when_omitted(prog, f, stages):
     return all(len(e.args) == len(pos) and e.args[-1] is r for e in rec)
 
 
+_WIDE_INT = {"int", "np.int64", "numpy.int64", "np.intp", "numpy.intp", "np.int_", "numpy.int_", "'int64'", "'i8'", "np.uint64", "numpy.uint64", "np.integer"}
+_WIDE_FLOAT = {"float", "np.float64", "numpy.float64", "np.double", "numpy.double", "'float64'", "'f8'", "np.longdouble", "np.float_"}
+
+
+def rule_X6(ctx, info):
+    """The MAP tables hold grid indices (0 .. grid_size - 1, the grid size is a command-line option with no upper
+    bound) and log scores.  An explicit element type narrower than the platform integer / double silently wraps an
+    index (uint8 at grid 257) or rounds a score: the traceback then follows another cell than the maximising one."""
+    prog = ctx.prog
+    ctx.rule("X6", "index and score tables of the MAP pipeline keep full width: every explicit dtype / astype in process_trace.map is the platform integer or float64", 4)
+    mod = prog.module("phyclone.process_trace.map")
+    n = 0
+    for fi in prog.functions.values():
+        if fi.module is not mod:
+            continue
+        for c in ast.walk(fi.node):
+            if not isinstance(c, ast.Call):
+                continue
+            dt = kwarg(c, "dtype")
+            if dt is None and isinstance(c.func, ast.Attribute) and c.func.attr in ("astype", "view") and c.args:
+                dt = c.args[0]
+            if dt is None:
+                continue
+            n += 1
+            txt = u(dt)
+            ok = txt in _WIDE_INT or txt in _WIDE_FLOAT or txt in ("bool", "np.bool_", "object")
+            if not ok and isinstance(dt, ast.Attribute) and dt.attr == "dtype":
+                ok = True  # another array's own element type
+            ctx.check(ok, "X6", "%s: %s keeps full width" % (fi.name, u(c)[:50]), fi.where(c), "element type %s: grid indices run up to grid_size - 1 (any size the command line gives) and scores are doubles; a narrower type wraps or rounds them silently and the traceback no longer follows the maximising cells" % txt, construct=fi.qualname, stmt="dtype " + txt)
+    if n < 4:
+        raise AnalysisError("X6: only %d explicit element types found in process_trace.map (expected the integer index tables)" % n)
+
+
 def _handle(v):
     """Identity of a dictionary value: the abstract object itself, or the term that denotes it."""
     if isinstance(v, (ADict, AList)):
@@ -1178,6 +1211,7 @@ def run(ctx):
     ctx.soft(rule_X3, info)
     ctx.soft(rule_X4, info)
     ctx.soft(rule_X5, info)
+    ctx.soft(rule_X6, info)
     # the recursion and the traceback run on the networkx copy of the tree: it must hold every node (an edgeless
     # all-outlier tree included) with its payload (same rule object as C12.N1)
     from ..formula import imported
@@ -1200,6 +1234,8 @@ _M = "phyclone/process_trace/map.py"
 _U = "phyclone/process_trace/utils.py"
 _PT = "phyclone/process_trace/process_trace.py"
 SELFTEST = [
+    {"name": "X6-argmax-table-int16", "kind": "break", "rule": "X6", "file": _M, "old": "    log_S_choice = np.zeros(log_D.shape, dtype=int)\n", "new": "    log_S_choice = np.zeros(log_D.shape, dtype=np.int16)\n"},
+    {"name": "benign-argmax-table-int64", "kind": "benign", "file": _M, "old": "    log_S_choice = np.zeros(log_D.shape, dtype=int)\n", "new": "    log_S_choice = np.zeros(log_D.shape, dtype=np.int64)\n"},
     # ---- Appendix A
     {"name": "X1-range-i", "kind": "break", "rule": "X1", "file": _M, "old": "for j in range(i + 1):", "new": "for j in range(i):"},
     {"name": "X1-prev-index-off-by-one", "kind": "break", "rule": "X1", "file": _M, "old": "prev_log_D_n[i - j]", "new": "prev_log_D_n[i - j - 1]"},
